@@ -53,6 +53,8 @@ type runner struct {
 
 	g1, g2, g3 *cl.Gate
 	async      []*cl.Gate // handleInsufficientState goroutines parked at the insufficient:enter hook
+	cg2, cg3   *cl.Gate   // periodic position check parked before / after its Broker.History call
+	tickDone   chan struct{}
 	subDone    chan struct{}
 	subID      uint32
 	conn       *cl.Conn
@@ -63,6 +65,8 @@ type worker struct {
 	gb      *cl.GateBroker
 	runners sync.Map // ch -> *runner
 	hist    int
+	timers  *cl.ManualTimers // client timers never fire by themselves: the model's CheckStart fires the presence tick
+	clock   atomic.Int64     // seconds the node clock is ahead of the wall clock (each position check moves it on)
 }
 
 // allRunners: ch -> *runner over all workers (the verif gate function is process-global)
@@ -130,15 +134,19 @@ func (w *worker) runner(ch string) *runner {
 }
 
 func newWorker(histSize, recLimit int) (*worker, error) {
+	timers := &cl.ManualTimers{}
 	env, err := cl.NewEnv(centrifuge.Config{
 		ClientChannelPositionMaxTimeLag: 5 * time.Second,
+		ClientChannelPositionCheckDelay: time.Millisecond, // every presence tick checks the position of positioned channels
+		ClientTimerScheduler:            timers,
 		RecoveryMaxPublicationLimit:     recLimit,
 		LogLevel:                        centrifuge.LogLevelNone,
 	})
 	if err != nil {
 		return nil, err
 	}
-	w := &worker{env: env, hist: histSize}
+	w := &worker{env: env, hist: histSize, timers: timers}
+	centrifuge.VerifMSetNodeClock(env.Node, func() time.Time { return time.Now().Add(time.Duration(w.clock.Load()) * time.Second) })
 	gb, err := cl.NewGateBroker(env.Node)
 	if err != nil {
 		return nil, err
@@ -150,11 +158,31 @@ func newWorker(histSize, recLimit int) (*worker, error) {
 		}
 	}
 	gb.BeforeHistory = func(ch string, _ centrifuge.HistoryOptions) {
-		if r := w.runner(ch); r != nil && r.g2 != nil {
+		r := w.runner(ch)
+		if r == nil {
+			return
+		}
+		r.mu.Lock()
+		cg := r.cg2
+		r.mu.Unlock()
+		if cg != nil { // the stream-top read of a periodic position check
+			cg.Arrive(30 * time.Second)
+			return
+		}
+		if r.g2 != nil {
 			r.g2.Arrive(gateTimeout)
 		}
 	}
 	gb.AfterHistory = func(ch string, _ centrifuge.HistoryOptions, _ []*centrifuge.Publication, sp centrifuge.StreamPosition) {
+		if r := w.runner(ch); r != nil {
+			r.mu.Lock()
+			cg := r.cg3
+			r.mu.Unlock()
+			if cg != nil {
+				cg.Arrive(30 * time.Second)
+				return
+			}
+		}
 		if r := w.runner(ch); r != nil && r.g3 != nil {
 			// what the stream retained at this moment (independent full read; the subscriber is parked, nothing moves)
 			all, _, _ := w.gb.Inner.History(ch, centrifuge.HistoryOptions{Filter: centrifuge.HistoryFilter{Limit: -1}})
@@ -666,6 +694,60 @@ func (w *worker) run(bi int, beh []map[string]any, res *vh.Result) {
 				conn.T.WaitFor(2*time.Second, func(_ []*protocol.Reply, closed bool) bool { return closed })
 			}
 			nontrivial = true
+		case "CheckStart":
+			w.clock.Add(1000)
+			r.mu.Lock()
+			r.cg2, r.cg3 = cl.NewGate(), cl.NewGate()
+			r.mu.Unlock()
+			r.tickDone = make(chan struct{})
+			go func(done chan struct{}) {
+				defer close(done)
+				w.timers.Fire()
+			}(r.tickDone)
+			if !r.cg2.WaitArrived(gateTimeout) {
+				drift("the presence tick did not start a position check (Broker.History not called)")
+			}
+			res.Count("position_checks", 1)
+		case "CheckRead":
+			r.cg2.Release()
+			if !r.cg3.WaitArrived(gateTimeout) {
+				drift("position check did not return from Broker.History")
+			}
+		case "CheckEnd":
+			r.mu.Lock()
+			g3 := r.cg3
+			r.cg2, r.cg3 = nil, nil
+			r.mu.Unlock()
+			g3.Release()
+			select {
+			case <-r.tickDone:
+			case <-time.After(gateTimeout):
+				drift("presence tick did not finish")
+			}
+			if !vh.Bool(step["valid"]) && diverged == "" {
+				// the insufficient-state end comes from a goroutine the tick spawned: wait for what the model expects
+				want := 0
+				mo := modelOut(st)
+				for _, f := range mo {
+					if f.T == "unsub" {
+						want++
+					}
+				}
+				wantDisc := len(mo) > 0 && mo[len(mo)-1].T == "disc"
+				conn.T.WaitFor(2*time.Second, func(rs []*protocol.Reply, closed bool) bool {
+					if wantDisc {
+						return closed
+					}
+					n := 0
+					for _, rep := range rs {
+						if rep.Push != nil && rep.Push.Channel == r.ch && rep.Push.Unsubscribe != nil {
+							n++
+						}
+					}
+					return n >= want || closed
+				})
+				nontrivial = true
+			}
 		case "AsyncEnd":
 			if diverged != "" {
 				r.releaseAsync(false)
@@ -773,7 +855,23 @@ func (w *worker) run(bi int, beh []map[string]any, res *vh.Result) {
 		}
 		completed = 0
 	}
-	// make sure a parked subscriber is released before leaving
+	// make sure a parked subscriber / position check is released before leaving
+	r.mu.Lock()
+	c2, c3 := r.cg2, r.cg3
+	r.cg2, r.cg3 = nil, nil
+	r.mu.Unlock()
+	if c2 != nil {
+		c2.Release()
+	}
+	if c3 != nil {
+		c3.Release()
+	}
+	if r.tickDone != nil {
+		select {
+		case <-r.tickDone:
+		case <-time.After(gateTimeout):
+		}
+	}
 	r.g1.Release()
 	if r.g2 != nil {
 		r.g2.Release()
